@@ -130,6 +130,7 @@ CONSTANT Hold = {%(hold)s}
 CONSTANT RGaps = {%(rgaps)s}
 CONSTANT Other = {%(other)s}
 CONSTANT MinSize = %(minsize)d
+CONSTANT AllRel = %(allrel)s
 CONSTANT TailT = %(tail)d
 INIT Init
 NEXT Next
@@ -137,7 +138,7 @@ CHECK_DEADLOCK FALSE
 """
 
 
-def enumerate_schedules(wd, name, keys, gaps, hold, rgaps, other=(), minsize=1, tail=40):
+def enumerate_schedules(wd, name, keys, gaps, hold, rgaps, other=(), minsize=1, tail=40, allrel=True):
     """TLC enumerates Sched_C09 for the constants and prints every schedule; returns the scripts."""
     mod = "MC_Sched_" + name
     with open(os.path.join(wd, mod + ".tla"), "w") as f:
@@ -145,7 +146,8 @@ def enumerate_schedules(wd, name, keys, gaps, hold, rgaps, other=(), minsize=1, 
     with open(os.path.join(wd, mod + ".cfg"), "w") as f:
         f.write(SCHED_CFG % dict(keys=", ".join(map(str, keys)), gaps=", ".join(map(str, gaps)),
                                  hold=", ".join(map(str, hold)), rgaps=", ".join(map(str, rgaps)),
-                                 other=", ".join(map(str, other)), minsize=minsize, tail=tail))
+                                 other=", ".join(map(str, other)), minsize=minsize, tail=tail,
+                                 allrel="TRUE" if allrel else "FALSE"))
     r = run_tlc(wd, mod, workers=1, timeout=600, heap="2g")
     if r["rc"] != 0 or r["error"]:
         raise ToolError("TLC failed on %s: %s (see %s)" % (mod, r["error"], r["out"]))
@@ -171,7 +173,7 @@ def schedule_family(tier):
          dict(keys=[c("a"), c("b"), c("c")], gaps=g3, hold=[6], rgaps=[0, 2])),
     ]
     if tier != "quick":
-        g4 = [0, T - 1, T + 1]
+        g4 = [0, T + 1]
         F += [
             ("s_v1_4", make_v1(T, "abcd", [("a", "b"), ("c", "d"), ("a", "b", "c", "d")]),
              dict(keys=[c("a"), c("b"), c("c"), c("d")], gaps=g4, hold=[5], rgaps=[1], minsize=2)),
@@ -179,9 +181,9 @@ def schedule_family(tier):
                                 (("a", "b", "c", "d"), T, "all", [], None)], "abcd"),
              dict(keys=[c("a"), c("b"), c("c"), c("d")], gaps=g4, hold=[5], rgaps=[1], minsize=2)),
             ("s_v2_5", make_v2([(("a", "b", "c", "d", "e"), T, "all", [], None), (("a", "b"), T, "first", [], None)], "abcde"),
-             dict(keys=[c("a"), c("b"), c("c"), c("d"), c("e")], gaps=[0, T + 1], hold=[5], rgaps=[0], minsize=5)),
+             dict(keys=[c("a"), c("b"), c("c"), c("d"), c("e")], gaps=[0, T + 1], hold=[5], rgaps=[0], minsize=5, allrel=False)),
             ("s_v1_5", make_v1(T, "abcde", [("a", "b", "c", "d", "e"), ("a", "b")]),
-             dict(keys=[c("a"), c("b"), c("c"), c("d"), c("e")], gaps=[0, T + 1], hold=[5], rgaps=[0], minsize=5)),
+             dict(keys=[c("a"), c("b"), c("c"), c("d"), c("e")], gaps=[0, T + 1], hold=[5], rgaps=[0], minsize=5, allrel=False)),
         ]
     return F
 
@@ -246,7 +248,16 @@ def run(tier, seed):
         if not jobs:
             continue
         jobs = shard_local_index(jobs)
-        errs, trace = record_and_validate(res, "P_C09", jobs, wd, "c09_" + label)
+        if len(jobs) > 4000:
+            # several TLC trace validations side by side (one work directory each)
+            k = 4
+            parts = [jobs[i::k] for i in range(k)]
+            with concurrent.futures.ThreadPoolExecutor(max_workers=k) as ex:
+                outs = list(ex.map(lambda ip: record_and_validate(res, "P_C09", ip[1], workdir("c09/%s%d" % (label, ip[0])),
+                                                                   "c09_%s%d" % (label, ip[0])), enumerate(parts)))
+            errs = [e for o in outs for e in o[0]]
+        else:
+            errs, trace = record_and_validate(res, "P_C09", jobs, wd, "c09_" + label)
         for e in errs:
             j, s = script_of(jobs, e["job"], 0)
             flow.classify(res, pid, e["err"], e["err"] + " cfg=" + j["cfg"],
